@@ -556,7 +556,9 @@ impl Local {
     #[inline]
     pub(crate) fn acquire_handle(&self) {
         let handle_count = self.handle_count.get();
-        debug_assert!(handle_count >= 1);
+        // A participant can also be kept alive by a guard alone: the temporary one that `cs()`
+        // registers from a thread-local destructor after the thread's handle is gone.
+        debug_assert!(handle_count >= 1 || self.guard_count.get() >= 1);
         self.handle_count.set(handle_count + 1);
     }
 
